@@ -522,6 +522,10 @@ impl serde::Serializer for MapKeySerializer {
         self.serialize_str(itoa::Buffer::new().format(value))
     }
 
+    fn serialize_i128(self, value: i128) -> Result<Value> {
+        self.serialize_str(itoa::Buffer::new().format(value))
+    }
+
     fn serialize_u8(self, value: u8) -> Result<Value> {
         self.serialize_u64(value as u64)
     }
@@ -536,6 +540,10 @@ impl serde::Serializer for MapKeySerializer {
 
     // FIXME: optimize the copy overhead
     fn serialize_u64(self, value: u64) -> Result<Value> {
+        self.serialize_str(itoa::Buffer::new().format(value))
+    }
+
+    fn serialize_u128(self, value: u128) -> Result<Value> {
         self.serialize_str(itoa::Buffer::new().format(value))
     }
 
